@@ -1,6 +1,6 @@
 (* Extraction of the C13 models for the correspondence check. ExtrOcamlBasic only. *)
 From V.lib Require Import Base.
-From V.c13 Require Import C13Spec C13Model C13ModelExt.
+From V.c13 Require Import C13Spec C13Model C13ModelExt C13ModelTail.
 Require Import ExtrOcamlBasic.
 Separate Extraction
   wstate wop rop rval rstate
@@ -11,4 +11,5 @@ Separate Extraction
   xrop xrval xrstep read_flag_plain
   fop fsw run_fsw fstep finit fbytes foff ferr
   bop bw run_bw bstep binit bbytes berr brev
-  wx xinit xout xs xerr wxstep wxstep_plain run_wx run_wx_plain read_se64 read_signed64.
+  wx xinit xout xs xerr wxstep wxstep_plain run_wx run_wx_plain read_se64 read_signed64
+  read_remaining fop2 fstep2 run_fsw2 fput_string.
